@@ -108,6 +108,19 @@ def handshakes(rnd, n):
     for i in range(n):
         k = 2 if rnd.random() < 0.6 else 3
         group = []
+        if i % 3 == 2:
+            # the gateway's own configured credentials (no AUTH): every session's MQTT CONNECT carries them,
+            # however many sessions have connected before
+            for j in range(k):
+                cid = "c%d" % (j + 1)
+                will = rnd.random() < 0.5
+                evs = [P("CONNECT", dur=2, cid=cid, clean=True, will=will)]
+                if will:
+                    evs += [P("WILLTOPIC", topic="will/%s" % cid, qos=1), P("WILLMSG", data="s:gone-%s" % cid)]
+                evs += [M("CONNACK", rc=0), P("PUBLISH", qos=0, tit=2, tid=24930, sname="ab", short=True, data="s:hello-" + cid)]
+                group.append({"cfg": cfg(auth=False, hasuser=True, user="gwu", haspass=True, **{"pass": "gwp"}), "events": evs, "tail": 25})
+            out.append(group)
+            continue
         for j in range(k):
             cid = "c%d" % (j + 1)
             user, pw = "user%d" % j, "pw-%d-%s" % (j, "x" * rnd.choice([0, 3, 9]))
